@@ -211,27 +211,32 @@ def r2_bracketing(r, facts):
     for l in offl:
         h2 = f.forward_paths_hit([Loc(0, 0)], [l], blockers=[on[0][0]])
         r.require(h2 is None, 'Completions::poll/clear-without-set', 'set_polling(false) is reachable without set_polling(true) before it: it wipes the awoken flag of a wake() that arrived while this poll was processing already queued completions', f.where(l))
-    # nothing blocks between set_polling(false) and return: no second enter
-    # awoken edge => zero timeout
-    cs = [c for c in bool_call_switches(f, SET_POLLING) if c['call_loc'] == on[0][0]]
-    if r.require(len(cs) == 1, 'Completions::poll/awoken-test', 'the result of set_polling(true) is not tested', f.where(on[0][0])):
-        c = cs[0]
-        # timeout operand of enter on the awoken edge
-        te = ExprBuilder(f, multi='leaf').operand(et['args'][3])
-        tl = et['args'][3]
-        ok = False
-        if 'l' in tl:
-            src = tl['l']
-            # follow one copy
-            d = f.single_def(src)
-            if d and d[1] == 'assign' and d[2]['k'] == 'use' and 'l' in d[2]['op']:
-                src = d[2]['op']['l']
-            for i, s in enumerate(f.stmts(c['true'])):
-                if s['k'] == 'assign' and is_local(s['lhs'], src):
-                    e = ExprBuilder(f).rvalue(s['rv'])
-                    ok = e[0] == 'agg' and e[1].endswith('Option::Some') and e[3][0][0] == 'const' and str(e[3][0][2]).endswith('Duration::ZERO')
-                    r.inst('awoken edge timeout = %s' % (e,), f.where(Loc(c['true'], i)))
-        r.require(ok, 'Completions::poll/awoken-blocks', 'when set_polling(true) reports a pending wake the enter does not use a zero timeout (the earlier wake is lost)', f.where(on[0][0]))
+    # a wake that arrived before this poll: when set_polling(true) returns true the enter must not block.  Decided
+    # on paths: with the call's result fixed to true, every definition of the timeout that reaches the enter is
+    # Some(Duration::ZERO) — `if`, `match (awoken, timeout)`, a flag local, or a helper alike
+    ot = on[0][1]
+    tl = et['args'][3]
+    if r.require(ot['target'] is not None and not ot['dest']['p'] and 'l' in tl and not tl['p'], 'Completions::poll/awoken-test', 'the result of set_polling(true) / the timeout operand of enter was not recognised', f.where(on[0][0])):
+        lead = ExprBuilder(f, multi='leaf')
+        for val, want_zero in ((1, True), (0, False)):
+            defs = f.reaching_defs([Loc(ot['target'], 0)], el, tl['l'], env0={ot['dest']['l']: val})
+            descr = []
+            allzero = bool(defs)
+            for d in defs:
+                if d == 'entry':
+                    descr.append('the caller\'s timeout')
+                    allzero = False
+                    continue
+                st = f.at(d)
+                e = lead.rvalue(st['rv']) if not f.is_term(d) else lead.call(st)
+                z = e[0] == 'agg' and e[1].endswith('Option::Some') and e[3] and e[3][0][0] == 'const' and str(e[3][0][2]).endswith('Duration::ZERO')
+                descr.append('Some(Duration::ZERO)' if z else str(e)[:60])
+                allzero = allzero and z
+            r.inst('set_polling(true) == %s: timeout of enter <- %s' % (bool(val), sorted(set(descr))), f.where(el))
+            if want_zero:
+                r.require(allzero, 'Completions::poll/awoken-blocks', 'when set_polling(true) reports a pending wake the enter does not use a zero timeout (the earlier wake is lost): timeout comes from %s' % sorted(set(descr)), f.where(on[0][0]))
+            else:
+                r.require(not allzero, 'Completions::poll/always-zero', 'the enter never blocks (zero timeout even without a pending wake): Ring::poll ignores its timeout', f.where(on[0][0]))
     r.floor(2)
 
 
